@@ -171,14 +171,16 @@ def order_parents(edges, n, names=None):
     return [sorted((a for a, b in edges if b == v), key=key) for v in range(n)]
 
 
-def explicit_python(c, X, Y, names=None):
-    """the explicit procedure with node-level calls only, on fresh twin nodes"""
+def explicit_python(c, X, Y, names=None, parents_override=None):
+    """the explicit procedure with node-level calls only, on fresh twin nodes (`parents_override`: the operand order of
+    some fan-in nodes replaced - used to evaluate what the routing model PREDICTS for finding K20)"""
     from reservoirpy.nodes import Input as RInput
     descs = c["descs"]
     edges = [tuple(e) for e in c["edges"]]
     fb = {int(k): v for k, v in c["fb"].items()}
     n = len(descs)
     parents = dict(enumerate(order_parents(edges, n, names)))
+    parents.update(parents_override or {})
     outs = {v: [None] * len(X) for v in range(n)}
     W = {}
     reset_each = c["topo"] == "esn" or c.get("stateful") is False
@@ -254,6 +256,17 @@ def cut_edge_signature(ctx, model):
     if mo[0] != "ok":
         raise common.FrameworkError("model driver error (stages): " + str(mo[1]))
     kinds = {f["kind"] for f in mo[1]["route_faults"]}
+    cut_edge_signature.delivered = {}
+    if kinds == {"order"}:
+        # what the model says each permuted fan-in receives, in user-level indices: {consumer behind the Concat: operands}
+        back = {i: nd for nd, i in ids.items()}
+        children = {}
+        for a_, b_ in model.edges:
+            children.setdefault(a_, []).append(b_)
+        got = {c_: l_ for c_, l_ in mo[1]["delivered"]}
+        for f in mo[1]["route_faults"]:
+            cn = back[f["node"]]
+            cut_edge_signature.delivered[children[cn][0]] = [back[i] for i in got[f["node"]]]
     for kind, fid in (("no_train_data", K23), ("missing", K21), ("overwrite", K22), ("order", K20)):
         if kind in kinds:
             return fid
@@ -426,6 +439,22 @@ def check_fit(ctx, c):
             for b_ in range(len(ex[0])):
                 if abs(Fraction(float(got[a][b_])) - ex[a][b_]) > Fraction(1, 10 ** 9) * scale:
                     bad_m = (a, b_, float(ex[a][b_]), float(got[a][b_]))
+        if bad_py and c["topo"] == "dag" and model0 is not None and cut_edge_signature(ctx, model0) == K20 \
+                and cut_edge_signature.delivered and K20 in common.open_findings("C06"):
+            # only permuted fan-ins: the routing model predicts not just THAT the fit is wrong but WHAT it is - the explicit
+            # procedure with those fan-ins concatenated in the delivered order (C06_permuted_fit: the optimum for the permuted
+            # features). Anything else is a violation.
+            b_ = built[1]
+            ov = {b_.nodes.index(v_): [b_.nodes.index(p_) for p_ in ps_] for v_, ps_ in cut_edge_signature.delivered.items()
+                  if v_ in b_.nodes and all(p_ in b_.nodes for p_ in ps_)}
+            W_pred = explicit_python(c, X, Y, names, parents_override=ov)
+            if all(impl_W[j].shape == W_pred[j].shape and np.allclose(impl_W[j], W_pred[j], rtol=1e-9, atol=1e-9) for j in ridge_idx):
+                ctx.known(K20, CUT_EDGE_FINDINGS[K20])
+                ctx.stat("dag fit attributed to K20: every readout equals the fit on the features in the order the routing model predicts")
+                return
+            ctx.violation(f"fit ({c['topo']}): readout {i} is neither the explicit procedure's nor the one the routing model predicts "
+                          "for this topology (finding K20: fan-in operands in delivered order)", c, obligation=ob)
+            return
         if bad_py:
             report_fit_failure(ctx, c, model0,
                                f"fit ({c['topo']}): readout {i} does not get the parameters of the explicit node-by-node procedure "
